@@ -261,6 +261,19 @@ func (st *ReqState) ServeVia(r *rux.Router, entry string) (out Outcome) {
 	return
 }
 
+// ServeOn dispatches the request on a context the caller owns and re-initialises for every request (Init +
+// HandleContext): the documented way to drive the router with one's own context.
+func (st *ReqState) ServeOn(r *rux.Router, c *rux.Context) (out Outcome) {
+	func() {
+		defer func() { out.Escaped = recover() }()
+		c.Init(st.Rec, st.Req)
+		r.HandleContext(c)
+	}()
+	st.FreezeCopies()
+	out.Trace, out.Log = st.Tr.String(), st.Rec.Log()
+	return
+}
+
 // Diff compares a real outcome with the model's; "" when equal.
 func Diff(real, want Outcome) string {
 	var ss []string
